@@ -114,6 +114,7 @@ func main() {
 	// so that a deadline on an overloaded machine cuts the least important part.
 	ff := u.familiesF()
 	fams := append(u.familiesC(), ff...)
+	fams = append(fams, u.familiesP()...)
 	fams = append(fams, u.late...)
 	if only := os.Getenv("VERIF_C19_ONLY"); only != "" {
 		var keep []Family
